@@ -306,3 +306,27 @@ define void @f() #0 {
   ret void
 }
 attributes #3 = { nounwind }
+;;; ATOM func/allocsize-second-index-zero
+declare i8* @a(i32, i32) allocsize(1, 0)
+declare i8* @b(i32, i32) allocsize(0)
+declare i8* @c(i32, i32) allocsize(0, 1) #0
+define i8* @f(i32 %n) {
+  %p = call i8* @a(i32 %n, i32 %n) allocsize(1, 0)
+  ret i8* %p
+}
+attributes #0 = { allocsize(1, 0) }
+;;; ATOM func/attrgroup-undefined-used-twice
+@g = global i32 0 #7
+declare void @d() #7
+define void @f() #7 {
+  call void @d() #7
+  call void @d() #7
+  ret void
+}
+;;; ATOM func/declaration-params-named-then-numbered
+declare void @f(i32 %x, i32 %0, i32 %1)
+declare void @g(i32 %0, i32 %y, i32 %1, i32 %z, i32 %2)
+define i32 @h(i32 %a, i32 %0, i32 %b, i32 %1) {
+  %3 = add i32 %0, %1
+  ret i32 %3
+}
